@@ -94,7 +94,7 @@ Print Assumptions c12_nothing_to_discriminate.
 (* coverage: for EVERY legal choice sequence reaching `finished`, every pair of the parent is
    marked by at least min(2n, available) selected genes, available = number of genes of the
    thinned array (reference markers present in the query) that mark the pair.
-   Hypothesis no_gene_both_ways: no gene is an up- and a down-marker of one pair (C11;
+   The hypothesis no_gene_both_ways: no gene is an up- and a down-marker of one pair (C11;
    asserted by marker_mask_from_pair_idx; checked on every generated table) — without it the
    aggregate counts such a gene twice. *)
 Theorem c12_coverage : forall n_genes pairs marks n trace st,
